@@ -35,6 +35,9 @@ def check(model, tier):
     structure.r_select_reapply(ctx, "R10.8")
     run.assume("CPython attribute semantics; code outside the package does not call object.__setattr__ on relations")
     run.assume("single-threaded histories (the property does not quantify over schedules)")
+    from ..rules.foundation import run_foundation
+
+    run_foundation(ctx, "10")
     return run
 
 LEVEL_TEXT = (
